@@ -142,6 +142,8 @@ type c15Case struct {
 	Note string `json:"note,omitempty"`
 	// kind "conc": a concurrent scenario (run in a child process)
 	Input *c15ConcInput `json:"input,omitempty"`
+	// kind "store": a history of the ticket store
+	Steps []c15StoreStep `json:"steps,omitempty"`
 }
 
 func runC15(r *Run) {
@@ -299,6 +301,8 @@ func runC15(r *Run) {
 			if c.Input != nil {
 				c15RunConc(r, *c.Input, "fixed")
 			}
+		case "store":
+			c15StoreExec(r, c.Steps)
 		case "bytes":
 			b := decUnhex(c.Hex)
 			r.Emit("C15 de "+decHex(b), decDeserialize(b).String())
@@ -327,6 +331,11 @@ func runC15(r *Run) {
 			mode = 1
 		}
 		runTicket(t, wf, full)
+	}
+
+	// update histories in the real ticket store
+	for g := 0; g < r.N/8 && len(r.Violations) < 20 && !decStalled(); g++ {
+		c15StoreExec(r, c15StoreGen(r))
 	}
 
 	// concurrent encode / decode (child process), after the sequential cases
